@@ -169,7 +169,7 @@ Proof.
     + destruct (has_bang m) eqn:Eb; intuition congruence.
 Qed.
 
-(** C03-F4 (without the repair fixes/C03-F4.diff): a non-empty list that denotes no method at
+(** C03-F4 (pinned variant, before commit 22bae5e): a non-empty list that denotes no method at
     all (only exclusions, or ALL with every method excluded) *)
 Definition guard_F4 (fx4 : bool) (ms : list string) : bool :=
   negb fx4 && negb (is_nil ms) && match create_method_matcher false ms with Ok [] => true | _ => false end.
@@ -249,7 +249,7 @@ Qed.
 Lemma scheme_semantics s q : scheme_match s q = spec_scheme s q.
 Proof. reflexivity. Qed.
 
-(** C03-F1 (without the repair fixes/C03-F1.diff): two or more host expressions that disagree on
+(** C03-F1 (pinned variant, before commit 6793b33): two or more host expressions that disagree on
     the request's host *)
 Definition guard_F1 (fx1 : bool) (eng : engine) (hs : list tmdef) (q : request) : bool :=
   negb fx1 &&
@@ -652,7 +652,7 @@ Proof.
   unfold nd_old, path_unescape. rewrite Hu. apply nd_second_half; assumption.
 Qed.
 
-(* ---- the decoding without place-holder (fixes/C03-F8.diff): cut at the encoded slashes, decode, join *)
+(* ---- the decoding without place-holder (since commit 6d0a3af): cut at the encoded slashes, decode, join *)
 
 Lemma split_on_aux_0 sep c r :
   split_on_aux sep 0 (String c r) =
